@@ -511,18 +511,18 @@ pub fn run(ctx: &Ctx) {
         let mut t2 = Tape::new(&sub);
         s2k_case(&mut t2, rec, Some(c))
     });
-    let n = ctx.tier.pick(3000u64, 60_000);
+    let n = ctx.tier.pick(3000u64, 300_000);
     ctx.group("s2k-random", Source::Random { n, tape_len: 96 }, |t, rec| s2k_case(t, rec, None));
-    let n = ctx.tier.pick(3000u64, 60_000);
+    let n = ctx.tier.pick(3000u64, 300_000);
     ctx.group("seipdv1", Source::Random { n, tape_len: 128 }, seipdv1_case);
     ctx.group("seipdv2", Source::Random { n, tape_len: 128 }, seipdv2_case);
-    let n = ctx.tier.pick(2000u64, 40_000);
+    let n = ctx.tier.pick(2000u64, 200_000);
     ctx.group("skesk", Source::Random { n, tape_len: 320 }, skesk_case);
     zoo::warm(&[Kind::Ed25519V4, Kind::Ed25519V6, Kind::P256V4, Kind::EdLegacyV4, Kind::RsaV4, Kind::Ed448V6, Kind::RsaV6]);
     ctx.group("secret-key-protection", Source::Random { n, tape_len: 400 }, seckey_case);
     zoo::warm(zoo::ALL_RECIPIENTS);
     let cheap = [Kind::EdLegacyV4, Kind::Ed25519V4, Kind::Ed25519V6, Kind::P256V4];
     ctx.group("pkesk-cheap", Source::Random { n, tape_len: 160 }, |t, rec| pkesk_case(t, rec, &cheap));
-    let n = ctx.tier.pick(300u64, 6_000);
+    let n = ctx.tier.pick(300u64, 30_000);
     ctx.group("pkesk-all-algorithms", Source::Random { n, tape_len: 160 }, |t, rec| pkesk_case(t, rec, zoo::ALL_RECIPIENTS));
 }
